@@ -34,7 +34,8 @@ Result.ambiguous is None, or a short string naming the first place where OpenFlo
 open (NORMAL/LOCAL, OFPP_TABLE from a flow entry, nw rewrite on a frame that is not IPv4, tp rewrite on
 something that is not an unfragmented TCP/UDP datagram, ...).  events then holds what was determined
 before that point and nothing after it may be judged byte-wise.
-Result.final is the frame after the last judged action, Result.table_lookups counts OFPP_TABLE lookups.
+Result.final is the frame after the last judged action, Result.table_lookups counts OFPP_TABLE lookups and
+Result.first_lookup_event is len(events) when the first lookup happened.
 """
 import struct
 
@@ -236,6 +237,18 @@ def rewrite(frame, act, udp_zero="keep", tos="dscp"):
   raise ValueError("unknown action %r" % (a,))
 
 
+def fill_udp_checksum(frame):
+  """The frame with the checksum of a complete UDP datagram filled in if the sender left it 0."""
+  v = View(frame)
+  if not v.ipv4 or v.proto != 17 or v.mf or v.fragoff != 0 or v.l4len < 8:
+    return frame
+  if frame[v.l4 + 6] or frame[v.l4 + 7]:
+    return frame
+  b = bytearray(frame)
+  _fix_l4_checksum(b, v, "fill")
+  return bytes(b)
+
+
 # --------------------------------------------------------------------------- ports
 
 def may_transmit(port_state, p):
@@ -287,13 +300,14 @@ def expand_output(port, in_port, port_state):
 
 
 class Result(object):
-  __slots__ = ("events", "ambiguous", "final", "table_lookups")
+  __slots__ = ("events", "ambiguous", "final", "table_lookups", "first_lookup_event")
 
   def __init__(self):
     self.events = []
     self.ambiguous = None
     self.final = None
     self.table_lookups = 0
+    self.first_lookup_event = None      # len(events) at the moment of the first OFPP_TABLE lookup
 
   def physical(self):
     """All (port, frame) expected on physical ports, flattened in list order."""
@@ -335,6 +349,8 @@ def apply(frame, actions, in_port, port_state, udp_zero="keep", tos="dscp", from
           res.ambiguous = "OFPP_TABLE lookup with an ingress port that does not exist"
           break
         res.table_lookups += 1
+        if res.first_lookup_event is None:
+          res.first_lookup_event = len(res.events)
         nested = table(f, in_port)
         if nested is None:
           res.events.append(("miss", f))
